@@ -86,6 +86,8 @@ def rand_value(rng, known):
 def fix(v, rng):
     if v["t"] == "NodeId" and v["v"][2] is None:
         v["v"][2] = str(rng.randint(0, 9999)) if v["v"][1] == "i" else gen.plain_text(rng) + "é"
+        if v["v"][1] != "i" and rng.random() < 0.3:
+            v["v"][2] = rng.choice(["4711", "0042", "7", "000815", "12"])     # digits only, yet a string / guid / opaque identifier
     return v
 
 
